@@ -31,7 +31,7 @@ import (
 var Check = &mc.Check{
 	ID:    "C08",
 	Level: "model_checking",
-	Rule: "Range forms = {absent} + bytes=<first>-<last> for first,last in {empty,0..6,20-digit number} + malformed forms (no '=', other unit, letters, '--1', '1-2-3', multi-range, blanks); files of length 0..5, 8192, 8193 (small/big-file threshold), 16500, an index file, a sub-directory; methods GET/HEAD; options AcceptByteRange x Compress(+Accept-Encoding: gzip) x IndexNames x GenerateIndexPages; routes StaticFS, ctx.File and ctx.FileFromFS; file names with %, ?, #, blank (a%41.txt next to aA.txt, q?x.txt next to q, ...) requested through their encoded paths; " +
+	Rule: "Range forms = {absent} + bytes=<first>-<last> for first,last in {empty,0..6,20-digit number} + malformed forms (no '=', other unit, letters, '--1', '1-2-3', multi-range, blanks); files of length 0..5, 8192, 8193 (small/big-file threshold), 16500, an index file, a sub-directory; methods GET/HEAD; options AcceptByteRange x Compress(+Accept-Encoding: gzip) x IndexNames x GenerateIndexPages; routes StaticFS, ctx.File and ctx.FileFromFS; file names with %, ?, #, blank (a%41.txt next to aA.txt, q?x.txt next to q, ...) requested through their encoded paths; part R: a file served once (plain / gzip) is replaced by contents of another length with an older or newer modification time and requested again (plain / gzip / Range) from a handler with a cold cache - the answer is the file as it is now; " +
 		"per connection two consecutive identical requests (cold/warm cache) and, over a reduced set, every ordered pair of different Range forms on the same file; traversal targets; non-trivial = requests with a Range header or a non-regular target",
 	Run:    run,
 	Replay: replay,
@@ -590,6 +590,8 @@ func run(c *mc.Ctx) {
 			}
 		}
 	}
+	rcs := replaceCases(c.Thorough())
+	c.Extra("replaced_file_cases", len(rcs))
 	c.Extra("cases", len(cases))
 	c.Sample(cases[len(cases)/3])
 	c.Sample(cases[len(cases)-5])
@@ -614,6 +616,20 @@ func run(c *mc.Ctx) {
 		if cases[i].Reqs[0].Range != "" || strings.ContainsAny(cases[i].Reqs[0].Path[1:], "/.%\\") {
 			atomic.AddInt64(nt, 1)
 		}
+		pool <- w
+	})
+	// part R: the file is replaced between two requests
+	c.ParallelFor(len(rcs), func(i int) {
+		var w *worker
+		select {
+		case w = <-pool:
+		default:
+			w = newWorker(int(atomic.AddInt64(&nextID, 1)))
+		}
+		w.execReplace(c, rcs[i])
+		atomic.AddInt64(ex, 1)
+		atomic.AddInt64(tr, 2)
+		atomic.AddInt64(nt, 1)
 		pool <- w
 	})
 	if baseDir != "" {
@@ -641,6 +657,12 @@ func replay(c *mc.Ctx, raw json.RawMessage) {
 	}
 	baseOnce = sync.Once{}
 	w := newWorker(int(atomic.AddInt64(&replayID, 1)))
+	var rc ReplaceCase
+	if json.Unmarshal(raw, &rc) == nil && rc.Replace {
+		w.execReplace(c, rc)
+		os.RemoveAll(baseDir) //nolint:errcheck
+		return
+	}
 	w.exec(c, cs)
 	os.RemoveAll(baseDir) //nolint:errcheck
 }
